@@ -73,6 +73,7 @@ type Opts struct {
 	DescPool   []string           // description texts (with Descs)
 	Titles     []string           // title texts
 	Names      []string           // property-name pool (default: plain ASCII names)
+	AnyBranch  bool               // anyOf/allOf branches may also be map objects, arrays, primitives or null
 }
 
 // Gen is a random schema generator.
@@ -695,7 +696,21 @@ func (g *Gen) Compose(depth int) *Schema {
 				b.Required = append(b.Required, name)
 			}
 		}
-		if !g.O.NoRefs && r.Chance(0.3) {
+		if g.O.AnyBranch && r.Chance(0.4) {
+			switch r.IntN(5) {
+			case 0:
+				b = g.MapObject(depth + 1)
+			case 1:
+				b = &Schema{Types: []string{"null"}}
+			case 2:
+				b = g.String()
+			case 3:
+				b = &Schema{Types: []string{"array"}, Items: g.Integer()}
+			case 4:
+				b = g.Integer()
+			}
+		}
+		if !g.O.NoRefs && r.Chance(0.3) && len(b.Props) > 0 {
 			b = g.RefTo(b)
 		}
 		bs = append(bs, b)
